@@ -382,7 +382,7 @@ def verify_unit(unit, tier="quick", do_canary=True):
     if not obs:
         out.update(status="undecided", reason="no obligations generated (vacuous unit)")
         return out
-    rl = 200 if tier == "thorough" else 50
+    rl = 400 if tier == "thorough" else 150
     r = run_verus(path, rlimit=rl)
     out.update(cmd=r["cmd"], wall=r["wall"], verified=r.get("verified", 0), errors=r.get("errors", 0))
     t = r.get("js", {}).get("times-ms", {})
@@ -415,7 +415,7 @@ def verify_unit(unit, tier="quick", do_canary=True):
             cg = make_canary(g, m0, grp)
             cpath = os.path.join(WORK, f"{unit}_canary{gi}.rs")
             open(cpath, "w", encoding="utf-8").write(cg)
-            cr = run_verus(cpath, rlimit=50)
+            cr = run_verus(cpath, rlimit=150)
             failed_fns = set()
             cm = R.mask(cg)
             cfns = functions(cg, cm)
